@@ -573,6 +573,24 @@ fn main() {
                     o.iter().map(|&i| ATTR_NAMES[i]).collect::<Vec<_>>().join(","), if st_gen { "generalized" } else { "utc" },
                     twin_name));
         });
+        // the documented limit: 65534 / 65535 octets must be accepted, 65536 / 65537 are counted only - but nothing may panic
+        for target in [65534usize, 65535, 65536, 65537] {
+            let mut found = None;
+            for k in (target - 200)..target {
+                let mut p = Plan::base(Kind::Gen);
+                let mut arcs = vec![1u64, 2]; arcs.extend(std::iter::repeat(1).take(k)); p.ect = arcs;
+                if der::cat(&plan_attrs(&p)).len() == target { found = Some(p); break }
+            }
+            let Some(p) = found else { ctx.machinery_error(format!("attrs.size cannot reach {target} octets")); continue };
+            let bytes = assemble(&fx, &p, cert);
+            for strict in [true, false] {
+                let (v, _) = run(&fx, Kind::Gen, &bytes, &fx.ca, strict, Entry::At);
+                sp.eval();
+                let wit = || format!("kind=generic attrs_len={target} order=ct,md,st st=utc signed-over=SET OF strict={strict}");
+                if target <= 65535 { t.add(v.class()); lens.lock().unwrap().insert(target); expect(&ctx, "C02.attrs.size.accept", "-", true, &v, wit) }
+                else { t.add(match &v { Verdict::Accept => "over-limit-accepted", Verdict::Panic(_) => "panic", _ => "over-limit-rejected" }); if let Verdict::Panic(pn) = &v { fail("C02.no_panic", wit(), pn.clone()) } }
+            }
+        }
         let lens = lens.into_inner().unwrap();
         let gaps: Vec<usize> = (100..=300).filter(|l| !lens.contains(l)).collect();
         sp.nontrivial(lens.len() as u64);
@@ -584,7 +602,7 @@ fn main() {
         if !(lens.contains(&127) && lens.contains(&128) && lens.contains(&255) && lens.contains(&256)) {
             ctx.machinery_error("attrs.size does not reach 127/128/255/256");
         }
-        sp.done(true, &format!("content-type OID of 1..={} octets x 2 time forms x 6 orders x {} mode(s)", kmax + 1, modes.len()));
+        sp.done(true, &format!("content-type OID of 1..={} octets x 2 time forms x 6 orders x {} mode(s); totals 65534..=65537", kmax + 1, modes.len()));
     }
 
     //--- (3) content sizes --------------------------------------------------------------------
